@@ -5,22 +5,29 @@
 (* back, as integers over the known denominators plus the distance from that fraction in units of 1e-12.      *)
 (* TLC recomputes every curve, area and sum exactly with the operators of Stats.tla and relates the events of *)
 (* one block: same AUC and curve under a monotone map and under reordering, 1 - AUC under negation.           *)
-(* Everything here is what the property states; there is no implementation-shaped layer to drift.            *)
+(* Round 3 (input classes K1..K9): R2 / BIAS are logged as integer numerators over D = m Syy - Sy^2 with the   *)
+(* residual in 1e-12 units and judged with Stats!FineTol (a function of the logged offset, length and D); the *)
+(* table builders PLSRegressionStatistics / MLRRegressionStatistics / PLSDiscriminantAnalysisStatistics are   *)
+(* recorded with their output history (TabIn/TabOut, DaIn/DaOut): entry (lv, j) must be the scalar figure of  *)
+(* response j against prediction column L!Col(lv, j), and an "assign" routine must leave exactly nlv x ny     *)
+(* entries whatever the output held on entry (StatsOut!CountAfter).  The only implementation-shaped layer    *)
+(* (Impl = TRUE; SPEC-DRIFT when it alone rejects) is what the "append" routines do with a used output.       *)
 EXTENDS Stats, TraceBase
 CONSTANTS Tol,          \* largest accepted distance of a logged double from its exact fraction, units of 1e-12
-          PairsMaxN     \* the all-pairs Mann-Whitney count is evaluated for events up to this length (quadratic)
-VARIABLES l, base, cur, reg
-tvars == <<fam, n, y, z, ny, nlv, st, l, base, cur, reg>>
+          PairsMaxN,    \* the all-pairs Mann-Whitney count is evaluated for events up to this length (quadratic)
+          Impl          \* TRUE: also check the implementation-shaped expectations (append into used curve / DA outputs)
+VARIABLES l, base, cur, reg, tab
+tvars == <<fam, n, y, z, ny, nlv, st, l, base, cur, reg, tab>>
 Ev == Tr[l]
 Step == l' = l + 1 /\ UNCHANGED <<fam, n, y, z, ny, nlv, st>>
 None == [set |-> FALSE]
 
-TInit == /\ l = 1 /\ base = None /\ cur = None /\ reg = None
+TInit == /\ l = 1 /\ base = None /\ cur = None /\ reg = None /\ tab = None
          /\ fam = "Roc" /\ n = 0 /\ y = <<>> /\ z = <<>> /\ ny = 1 /\ nlv = 1 /\ st = 1
-TReset == l <= Len(Tr) /\ Ev.e = "Reset" /\ Step /\ base' = None /\ cur' = None /\ reg' = None
+TReset == l <= Len(Tr) /\ Ev.e = "Reset" /\ Step /\ base' = None /\ cur' = None /\ reg' = None /\ tab' = None
 
 IsPerm(o, nn) == Len(o) = nn /\ {o[i] : i \in 1..nn} = 1..nn
-TRoc == /\ l <= Len(Tr) /\ Ev.e = "Roc" /\ Step /\ UNCHANGED reg
+TRoc == /\ l <= Len(Tr) /\ Ev.e = "Roc" /\ Step /\ UNCHANGED <<reg, tab>>
         /\ Len(Ev.y) = Ev.n /\ IsPerm(Ev.ord, Ev.n) /\ \A i \in 1..Ev.n : Ev.y[i] \in {0, 1, 2}
         /\ Ev.p = P(Ev.y) /\ Ev.nn = N(Ev.y) /\ Ev.p > 0 /\ Ev.nn > 0
         /\ Ev.pts = Roc(Ev.y, Ev.ord) /\ Ev.res <= Tol                     \* the step sequence of the definition, point by point
@@ -33,30 +40,109 @@ TRoc == /\ l <= Len(Tr) /\ Ev.e = "Roc" /\ Step /\ UNCHANGED reg
                                                /\ Ev.auc2 = base.auc2 /\ 2 * Ev.p * Ev.nn = base.d /\ Ev.pts = base.pts
              [] Ev.kind = "neg" -> /\ base.set /\ UNCHANGED base
                                    /\ 2 * Ev.p * Ev.nn = base.d /\ Ev.auc2 = base.d - base.auc2
-TArea == /\ l <= Len(Tr) /\ Ev.e = "Area" /\ Step /\ UNCHANGED <<base, cur, reg>>
+TArea == /\ l <= Len(Tr) /\ Ev.e = "Area" /\ Step /\ UNCHANGED <<base, cur, reg, tab>>
          /\ cur.set /\ Ev.ca2 = Area2(cur.pts) /\ Ev.cares <= Tol
-TPr == /\ l <= Len(Tr) /\ Ev.e = "Pr" /\ Step /\ UNCHANGED <<base, cur, reg>>
+TPr == /\ l <= Len(Tr) /\ Ev.e = "Pr" /\ Step /\ UNCHANGED <<base, cur, reg, tab>>
        /\ cur.set /\ Ev.pr = Pr(cur.y, cur.ord) /\ Ev.prres <= Tol
        /\ RecallCurve(Ev.pr, cur.y)                                        \* recall non-decreasing, ends at 1
        /\ Ev.ap9 >= 0 /\ Ev.ap9 <= 1000000000                              \* area in [0, 1]
 
-TRegIn == /\ l <= Len(Tr) /\ Ev.e = "RegIn" /\ Step /\ UNCHANGED <<base, cur>>
+TRegIn == /\ l <= Len(Tr) /\ Ev.e = "RegIn" /\ Step /\ UNCHANGED <<base, cur, tab>>
           /\ Len(Ev.yt) = Ev.n /\ Len(Ev.yp) = Ev.n /\ Ev.m = Cnt(Ev.yt) /\ Ev.m >= 1
-          /\ reg' = [set |-> TRUE, yt |-> Ev.yt, yp |-> Ev.yp, m |-> Ev.m]
-Keep == UNCHANGED <<base, cur, reg>>
+          /\ (Ev.dx # 0 => Ev.off = 0)                                    \* a decimal unit system is not exactly representable: only without offset
+          /\ 5 * (Ev.n - Ev.m) <= Ev.n                                    \* the quantifier: at most 20 % missing-coded truths
+          /\ reg' = [set |-> TRUE, yt |-> Ev.yt, yp |-> Ev.yp, m |-> Ev.m, off |-> Ev.off]
+Keep == UNCHANGED <<base, cur, reg, tab>>
+\* the 1e-4 comparison of round 1, kept for every input it could express (|numerator| <= 2e5 keeps the products inside 32 bits; all inputs of the
+\* round-1/2 generators satisfy it); longer vectors are judged by the exact numerator + 1e-12 residual below
 Within(q, nd) == /\ nd[2] > 0                                             \* |q/1e4 - n/d| <= 1e-4
-                 /\ Abs(q) <= (Abs(nd[1]) * 10000) \div nd[2] + 2            \* first: keeps q*d inside 32 bits for a saturated (inf/NaN) q
-                 /\ Abs(q * nd[2] - nd[1] * 10000) <= nd[2]
+                 /\ \/ Abs(nd[1]) > 200000
+                    \/ /\ Abs(q) <= (Abs(nd[1]) * 10000) \div nd[2] + 2      \* first: keeps q*d inside 32 bits for a saturated (inf/NaN) q
+                       /\ Abs(q * nd[2] - nd[1] * 10000) <= nd[2]
+Fine(ev, nd) == /\ ev.d = nd[2] /\ ev.num = nd[1]                        \* result = numerator / D exactly as the definition gives it ...
+                /\ ev.res <= FineTol(Tol, reg.off, reg.m, nd[2], nd[1])    \* ... within the tolerance the spec derives from offset, length and D
 TMse == l <= Len(Tr) /\ Ev.e = "Mse" /\ Step /\ Keep /\ reg.set /\ Ev.ssen = SSE(reg.yt, reg.yp) /\ Ev.res <= Tol
 TMae == /\ l <= Len(Tr) /\ Ev.e = "Mae" /\ Step /\ Keep /\ reg.set /\ Ev.saen = SAE(reg.yt, reg.yp) /\ Ev.res <= Tol
         /\ Ev.saen * Ev.saen <= reg.m * SSE(reg.yt, reg.yp)                 \* MAE <= RMSE
 TRmse == l <= Len(Tr) /\ Ev.e = "Rmse" /\ Step /\ Keep /\ reg.set /\ Ev.res <= Tol           \* RMSE^2 = MSE
 TR2 == /\ l <= Len(Tr) /\ Ev.e = "R2" /\ Step /\ Keep /\ reg.set
        /\ Within(Ev.q, R2q(reg.yt, reg.yp)) /\ Ev.q <= 10000                                 \* the formula; R2 <= 1
+       /\ Fine(Ev, R2q(reg.yt, reg.yp)) /\ Ev.over <= FineTol(Tol, reg.off, reg.m, DD(reg.yt), DD(reg.yt))
        /\ ((\A i \in Present(reg.yt) : reg.yp[i] = reg.yt[i]) => Ev.q = 10000)               \* perfect prediction
-TBias == l <= Len(Tr) /\ Ev.e = "Bias" /\ Step /\ Keep /\ reg.set /\ Within(Ev.q, BIASq(reg.yt, reg.yp))
+TBias == l <= Len(Tr) /\ Ev.e = "Bias" /\ Step /\ Keep /\ reg.set /\ Within(Ev.q, BIASq(reg.yt, reg.yp)) /\ Fine(Ev, BIASq(reg.yt, reg.yp))
 
-TNext == TReset \/ TRoc \/ TArea \/ TPr \/ TRegIn \/ TMse \/ TMae \/ TRmse \/ TR2 \/ TBias
+(* ---- ROC / PrecisionRecall into an output that already holds rows: the unchanged library appends (StatsOut!ContractOf = "append").   *)
+(* The statement promises nothing about a used curve output, so this is the implementation-shaped layer only.                          *)
+TAgain == /\ l <= Len(Tr) /\ Ev.e = "Again" /\ Step /\ Keep /\ cur.set /\ Ev.fn \in {"ROC", "PrecisionRecall"}
+          /\ Impl => LET new == IF Ev.fn = "ROC" THEN Roc(cur.y, cur.ord) ELSE Pr(cur.y, cur.ord)
+                         cnt == Len(new) + (IF Ev.fn = "ROC" THEN 0 ELSE 1)                       \* the PR curve starts with the conventional (0, 1)
+                     IN /\ Ev.rows = CountAfter(Ev.fn, Ev.pre, cnt) /\ Ev.head = 1
+                        /\ Ev.pts = new /\ Ev.res <= Tol
+
+(* ---- regression tables: PLSRegressionStatistics / MLRRegressionStatistics ------------------------------------------------------- *)
+Bit(mask, k) == (mask \div k) % 2 = 1                                    \* k = 1 (R2), 2 (RMSE), 4 (BIAS): the output was requested (non-NULL)
+RoutineOf(f) == IF f = "PlsReg" THEN "PLSRegressionStatistics" ELSE IF f = "Mlr" THEN "MLRRegressionStatistics" ELSE "PLSDiscriminantAnalysisStatistics"
+IsTable(m, rows, cols) == Len(m) = rows /\ \A i \in 1..rows : Len(m[i]) = cols
+TTabIn == /\ l <= Len(Tr) /\ Ev.e = "TabIn" /\ l' = l + 1 /\ UNCHANGED <<fam, n, y, z, st, base, cur, reg>>
+          /\ Ev.fam \in {"PlsReg", "Mlr"} /\ Ev.n >= 2 /\ Ev.ny >= 1 /\ Ev.nlv >= 1 /\ (Ev.fam = "Mlr" => Ev.nlv = 1)
+          /\ IsTable(Ev.mt, Ev.n, Ev.ny) /\ IsTable(Ev.mp, Ev.n, Ev.ny * Ev.nlv) /\ Ev.mask \in 1..7
+          /\ ny' = Ev.ny /\ nlv' = Ev.nlv
+          /\ tab' = [set |-> TRUE, fam |-> Ev.fam, n |-> Ev.n, mt |-> Ev.mt, mp |-> Ev.mp, off |-> Ev.off, mask |-> Ev.mask, pre |-> Ev.pre]
+TCol(j) == [i \in 1..tab.n |-> tab.mt[i][j]]                              \* response j \in 1..ny (MissCode = missing-coded truth)
+PCol(c) == [i \in 1..tab.n |-> tab.mp[i][c + 1]]                          \* prediction column c \in 0..ny*nlv-1
+TabEntry(e, t, p) ==
+  LET all == RegAll(t, p)  m == Cnt(t)  d == DD(t) IN
+  /\ e[1] = m /\ e[4] = d /\ 5 * (tab.n - m) <= tab.n                    \* (inside the quantifier: at most 20 % missing)
+  /\ (Bit(tab.mask, 2) => e[2] = all[1][1] /\ e[3] <= Tol)                                          \* RMSE^2 = SSE / m
+  /\ (Bit(tab.mask, 1) /\ d > 0 => e[5] = all[3][1] /\ e[6] <= FineTol(Tol, tab.off, m, d, all[3][1]))   \* R2
+  /\ (Bit(tab.mask, 4) /\ d > 0 => e[7] = all[4][1] /\ e[8] <= FineTol(Tol, tab.off, m, d, all[4][1]))   \* BIAS
+TTabOut == /\ l <= Len(Tr) /\ Ev.e = "TabOut" /\ Step /\ Keep /\ tab.set /\ tab.fam \in {"PlsReg", "Mlr"}
+           \* an "assign" routine leaves exactly one entry per (latent variable, response), whatever the output held on entry
+           /\ \A k \in 1..3 : Bit(tab.mask, IF k = 3 THEN 4 ELSE k) =>
+                 /\ Ev.dims[k] = <<nlv, ny>>
+                 /\ Ev.dims[k][1] * Ev.dims[k][2] = CountAfter(RoutineOf(tab.fam), tab.pre[k], nlv * ny)
+           /\ Len(Ev.ent) = nlv * ny /\ L!LayoutBijective
+           /\ \A lv \in 1..nlv, j \in 1..ny : TabEntry(Ev.ent[L!Col(lv, j - 1) + 1], TCol(j), PCol(L!Col(lv, j - 1)))
+
+(* ---- classification tables: PLSDiscriminantAnalysisStatistics (no missing-coded truths: outside the quantifier) ------------------- *)
+TDaIn == /\ l <= Len(Tr) /\ Ev.e = "DaIn" /\ l' = l + 1 /\ UNCHANGED <<fam, n, y, z, st, base, cur, reg>>
+         /\ Ev.n >= 2 /\ Ev.ny >= 1 /\ Ev.nlv >= 1 /\ IsTable(Ev.mt, Ev.n, Ev.ny) /\ IsTable(Ev.ords, Ev.ny * Ev.nlv, Ev.n)
+         /\ \A i \in 1..Ev.n, j \in 1..Ev.ny : Ev.mt[i][j] \in {0, 1}
+         /\ \A c \in 1..(Ev.ny * Ev.nlv) : IsPerm(Ev.ords[c], Ev.n)
+         /\ ny' = Ev.ny /\ nlv' = Ev.nlv
+         /\ tab' = [set |-> TRUE, fam |-> "PlsDa", n |-> Ev.n, mt |-> Ev.mt, ords |-> Ev.ords, pre |-> Ev.pre]
+Fresh4(pre) == \A k \in 1..4 : pre[k] = 0
+Prefix(s, k) == SubSeq(s, 1, k)
+DaCurves(ev) == /\ Len(ev.rocs) = nlv * ny /\ Len(ev.prs) = nlv * ny /\ ev.res <= Tol
+                /\ \A lv \in 1..nlv, j \in 1..ny :
+                     LET c == L!Col(lv, j - 1)  t == TCol(j)  o == tab.ords[c + 1] IN
+                     /\ ev.rocs[c + 1] = Prefix(Roc(t, o), tab.n)                                 \* the slice keeps the first n of the n+1 points
+                     /\ ev.prs[c + 1] = Prefix(Pr(t, o), tab.n - 1)
+TDaOut == /\ l <= Len(Tr) /\ Ev.e = "DaOut" /\ Step /\ Keep /\ tab.set /\ tab.fam = "PlsDa"
+          /\ LET r == "PLSDiscriminantAnalysisStatistics"
+                 dimsOk == /\ Ev.dims[1] = CountAfter(r, tab.pre[1], nlv) /\ Ev.dims[2] = ny              \* AUC table: one row per latent variable
+                           /\ Ev.dims[3] = CountAfter(r, tab.pre[2], nlv) /\ Ev.dims[4] = ny              \* PR-area table
+                           /\ Ev.dims[5] = CountAfter(r, tab.pre[3], nlv) /\ Ev.dims[6] = CountAfter(r, tab.pre[4], nlv)   \* one curve slice per latent variable
+                 entries == /\ Ev.ok = 1 /\ Len(Ev.ent) = nlv * ny
+                            /\ \A lv \in 1..nlv, j \in 1..ny :
+                                 LET c == L!Col(lv, j - 1)  t == TCol(j)  o == tab.ords[c + 1]  e == Ev.ent[c + 1] IN
+                                 /\ P(t) > 0 /\ N(t) > 0
+                                 /\ e[1] = Area2(Roc(t, o)) /\ e[2] <= Tol                                   \* AUC of score column ny*(lv-1)+j against response j
+                                 /\ (tab.n <= PairsMaxN => e[1] = 2 * Wins(t, o))
+                                 /\ e[3] >= 0 /\ e[3] <= 1000000000                                         \* PR area in [0, 1]
+             IN IF Fresh4(tab.pre) THEN dimsOk /\ entries /\ DaCurves(Ev)     \* fresh outputs: what the statement says about the tables
+                ELSE Impl => (dimsOk /\ entries)                              \* used outputs: the library appends rows / slices; recorded, not promised
+(* the curve slices this call appended to a USED tensor.  By the "append" contract they hold the new curves; this is outside the       *)
+(* statement, so a rejection of this event is reported as EXTRA-FINDING by the check (on the unchanged tree the routine writes the     *)
+(* curves into the FIRST nlv slices of the tensor - overwriting those of the previous call - and leaves the appended slices zero).    *)
+TDaSlices == /\ l <= Len(Tr) /\ Ev.e = "DaSlices" /\ Step /\ Keep /\ tab.set /\ tab.fam = "PlsDa" /\ ~Fresh4(tab.pre)
+             /\ Ev.at = <<tab.pre[3], tab.pre[4]>> /\ DaCurves(Ev)
+
+(* ---- curve_area on an arbitrary polyline (outside the statement: a rejection is reported as EXTRA-FINDING by the check) ----------- *)
+TPoly == /\ l <= Len(Tr) /\ Ev.e = "Poly" /\ Step /\ Keep
+         /\ IsTable(Ev.pts, Ev.n, 2) /\ Ev.a2 = Area2(Ev.pts) /\ Ev.res <= Tol
+
+TNext == TReset \/ TRoc \/ TArea \/ TPr \/ TRegIn \/ TMse \/ TMae \/ TRmse \/ TR2 \/ TBias \/ TAgain \/ TTabIn \/ TTabOut \/ TDaIn \/ TDaOut \/ TDaSlices \/ TPoly
 TSpec == TInit /\ [][TNext]_tvars
 TraceAccepted == Accepted
 Diag == ShowCursor(l)
